@@ -429,6 +429,9 @@ BODIES = [
     ("O a ? 'y' : 'n' O", {"a": 1}), ("O 'y' if a else 'n' O", {"a": False}), ("T if not a T N T endif T", {"a": None}), ("C hidden C shown", {}), ("T if a T", {"a": 1}),
     ("O x | nosuch O", {"x": 1}), ("T liquid\n # c\n echo x\nT", {"x": "L"}), ("T with v: x T O v O T endwith T", {"x": "W"}), ("T for i in (1..3) T O i O T endfor T", {}),
     ("text {{ x }} {% if a %} (( x )) << x >>", {"x": 1, "a": 1}), ("T assign q = x | upcase T O q O", {"x": "q"}),
+    # whitespace control at the very end of one template, whitespace at the very start of another: nothing carries over between them
+    ("start O x O- ", {"x": "e1"}), ("a T if a T- y T- endif T-", {"a": 1}), ("O- x O-", {"x": "e2"}), ("~ O x O tail", {"x": "s1"}), ("~ T if a T y T endif T", {"a": 1}), ("~ plain text only", {}),
+    ("~ C note C- ", {}),
 ]
 
 
@@ -436,13 +439,17 @@ def print_body(body: str, ds: list[str]) -> str:
     out = []
     opens = {"T": True, "O": True, "C": True}
     for part in body.split(" "):
-        if part in ("T", "O", "C"):
+        if part in ("T", "O", "C", "T-", "O-", "C-"):
+            hy = "-" if part.endswith("-") else ""
+            part = part[0]
             k = {"T": 0, "O": 2, "C": 4}[part]
-            out.append(ds[k] + " " if opens[part] else " " + ds[k + 1])
+            out.append(ds[k] + hy + " " if opens[part] else " " + hy + ds[k + 1])
             opens[part] = not opens[part]
+        elif part == "~":
+            out.append(" \n  ")  # leading whitespace
         else:
             out.append(part + " ")
-    return "".join(out)
+    return "".join(out).rstrip(" ") if body.endswith("- ") or body.endswith("-") else "".join(out)
 
 
 def gen_history(rng, thorough: bool) -> dict[str, Any]:
